@@ -115,4 +115,22 @@ PLANS = {
         "components": {"real": ["formak.cpp.compile_ekf / header_from_ast / source_from_ast", "formak.python.compile / compile_ekf (layouts)", "fresh CPython interpreters (real PYTHONHASHSEED)"], "stub": ["file system: formak.cpp.open shadowed by an in-memory recorder"]},
         "assumptions": ["the definition is transported as sympy srepr strings, so it is identical in every interpreter"],
     },
+    "C16": {
+        "level": "exploration",
+        "legs": [{"world": "estimator", "quick": {"runs": 400, "budget_s": 70}, "thorough": {"runs": 12000, "budget_s": 1200}, "run_timeout": 300, "chunk": 4}],
+        "rule": "per run: seeded model (0-3 controls, 1-3 sensors of 1-3 readings, k in {None,1,5}) + a seeded history of operations on one SklearnEKFAdapter and its clones: transform / mahalanobis / score(explain) on seeded matrices, get_params snapshots, export_python, clone, set_params, fit under the minimize seam, and duplicate calls (same matrix again after other ops intervened); values are compared with the exported filter run by hand (dt=0.1, sensors in key order, NIS from recorded innovation and S) and with the documented score formula; read-only ops must leave a deep by-value snapshot of get_params() unchanged. non-trivial = >=1 fault (duplicate call / minimize fault / unknown param), >=3 ops, >=2 abstract signatures",
+        "abstract_measure": "distinct (op kind, #rows class, #sensors, #controls) tuples",
+        "expect_probes": ["fault:duplicate_call", "probe:multi_reading_sensor", "probe:controls=0", "probe:controls=3", "probe:sensors=3", "probe:k=None", "probe:k=5.0"],
+        "components": {"real": ["formak.python.SklearnEKFAdapter (transform, mahalanobis, score, get/set_params, fit, export_python)", "formak.python.compile_ekf / ExtendedKalmanFilter", "sklearn.base.clone", "scipy.optimize.minimize (wrapped by the fault seam)"], "stub": []},
+        "assumptions": ["data bounded |X| <= 10, 1-8 rows", "runs are truncated (not failed) when the filter's covariance gate refuses mid-transform: that is C09's subject"],
+    },
+    "C17": {
+        "level": "exploration",
+        "legs": [{"world": "estimator", "quick": {"runs": 240, "budget_s": 75}, "thorough": {"runs": 8000, "budget_s": 1500}, "run_timeout": 600, "chunk": 2}],
+        "rule": "as C16 with more fit operations: set_params(**get_params()), clone, set_params(<Config field>=v), unknown names, and fit(X) under the fault seam on formak.python.minimize (real scipy run / forced success=False after j objective evaluations / early stop after j / a probe of a negative noise entry as an unconstrained optimiser does); outcome must be MinimizationFailure or a returned estimator whose model, sensor models, calibration and config equal the pre-fit snapshot and whose noise maps have the original keys, finite values, process noise > 0",
+        "abstract_measure": "distinct (op kind, minimize mode, outcome) tuples",
+        "expect_probes": ["fault:minimize:fail_after", "fault:minimize:early_stop", "fault:minimize:negative_probe", "fault:unknown_param", "probe:fit_returned", "probe:fit_MinimizationFailure"],
+        "components": {"real": ["formak.python.SklearnEKFAdapter", "scipy.optimize.minimize (real runs and as the wrapped callee of the seam)", "sklearn.base.clone"], "stub": ["fault seam formak.python.minimize (module-level name shadowed from outside)"]},
+        "assumptions": ["training data bounded |X| <= 10, 3-8 rows", "nothing is demanded of the estimator's parameters after a failed fit (the property is silent)"],
+    },
 }
